@@ -122,7 +122,48 @@ def run(E: Engine, rep: Report, tier: str) -> dict:
             dnf = ab.enclosing_conditions(n)
             ok = any(any(l.atom is not None and l.atom.rel == "Is" and "self.eom_blocks.tf" in l.atom.lhs.roots for l in c) and any(l.truth is not None and l.positive and "self.eom_blocks" in l.truth.roots for l in c) for c in dnf)
     rep.check(ok and any(norm(n.value) in ("0.0", "0") for n in fd), "SIB", "extend_duration|off-detuning-iff-eom-open", "pads with detuning_off iff the last EOM block is still open (tf is None), else 0", "the condition for padding with the EOM off-detuning changed", E.where(ed))
-    rep.floor("SIB", 12)
+    # the block whose off-detuning pads is the block the guard found open
+    for n in fd:
+        if "detuning_off" not in norm(n.value):
+            continue
+        tested = set()
+        for c in ab.enclosing_conditions(n):
+            for l in c:
+                if l.atom is not None and l.atom.rel == "Is":
+                    try:
+                        cmp_ = ast.parse(l.text, mode="eval").body
+                    except SyntaxError:
+                        continue
+                    if isinstance(cmp_, ast.Compare) and isinstance(cmp_.left, ast.Attribute) and cmp_.left.attr == "tf" and isinstance(cmp_.left.value, ast.Subscript):
+                        tested.add(norm(cmp_.left.value))
+        used = {norm(x.value) for x in ast.walk(n.value) if isinstance(x, ast.Attribute) and x.attr == "detuning_off" and isinstance(x.value, ast.Subscript)}
+        rep.check(bool(tested) and used <= tested and bool(used), "SIB", "extend_duration|pads-with-the-block-found-open", f"detuning_off read from {sorted(used)}, the element whose tf is tested", f"extend_duration tests {sorted(tested)}.tf is None but pads with the off-detuning of {sorted(used)}: with several EOM blocks of different off-detunings the padding is that of another block", E.where(ed, n))
+    # per-target window stays inside the slot: slice(start, s.tf) with start = s.ti or max(start, ...)
+    n_win = 0
+    for loop in own_nodes(tnd):
+        if not (isinstance(loop, ast.For) and isinstance(loop.target, ast.Name) and norm(loop.iter).endswith(".slots")):
+            continue
+        sv = loop.target.id
+        body_nodes = [x for st in loop.body for x in ast.walk(st)]
+        for a in body_nodes:
+            if not (isinstance(a, ast.Assign) and isinstance(a.value, ast.Call) and norm(a.value.func) == "slice" and len(a.value.args) == 2):
+                continue
+            n_win += 1
+            lo, hi = a.value.args
+            bad = None
+            if norm(hi) != f"{sv}.tf":
+                bad = f"the window ends at `{norm(hi)}`, not at the slot's end `{sv}.tf`"
+            defs = [x.value for x in body_nodes if isinstance(x, ast.Assign) and len(x.targets) == 1 and isinstance(lo, ast.Name) and norm(x.targets[0]) == lo.id] if isinstance(lo, ast.Name) else [lo]
+            for dv in defs:
+                if norm(dv) == f"{sv}.ti":
+                    continue
+                if isinstance(dv, ast.Call) and norm(dv.func) in ("max", "np.maximum") and any(norm(x) in (f"{sv}.ti", norm(lo)) for x in dv.args):
+                    continue
+                bad = bad or f"the window start `{norm(lo)} = {norm(dv)}` is not bounded below by the slot's start `{sv}.ti`"
+            if not defs:
+                bad = bad or f"the window start `{norm(lo)}` has no definition in the slot loop"
+            rep.check(bad is None, "SIB", f"to_nested_dict|window-within-slot|{norm(a.targets[0])}", f"`{norm(a)}` with start = {sv}.ti or max(start, ...)", f"to_nested_dict: {bad} -- samples of other slots are attributed to (added again for) the atom", E.where(tnd, a))
+    rep.floor("SIB", 14)
 
     # -------------------------------------------------------------- GUARD
     ok = any(isinstance(n, ast.Assign) and norm(n.targets[0]) == "start_t" and isinstance(n.value, ast.IfExp) and norm(n.value.test) == "in_xy" and "_slm_mask.end" in norm(n.value.body) and norm(n.value.orelse) == "0" for n in own_nodes(tnd))
